@@ -379,12 +379,18 @@ CARRIERS = ("yaml", "json", "pyproject")
 LIMIT = {"yaml": 2, "json": 3, "pyproject": 7}
 
 
-def _write_carrier(d, kind, spelling, malformed=False):
+def _write_carrier(d, kind, spelling, malformed=False, ignore_list="own"):
+    """ignore_list: 'own' (ignore: [skipme_<kind>/]), 'absent' (no ignore key) or 'empty' (ignore: [])."""
     mn = "magic-numbers" if spelling == "hyphen" else "magic_numbers"
     body = {"nesting": {"max_nesting_depth": LIMIT[kind]}, mn: {"enabled": False},
             "ignore": ["skipme_%s/" % kind]}
+    if ignore_list == "absent":
+        body.pop("ignore")
+    elif ignore_list == "empty":
+        body["ignore"] = []
     if kind == "yaml":
-        text = "nesting:\n  max_nesting_depth: %d\n%s:\n  enabled: false\nignore:\n  - skipme_yaml/\n" % (LIMIT[kind], mn)
+        text = "nesting:\n  max_nesting_depth: %d\n%s:\n  enabled: false\n" % (LIMIT[kind], mn) + \
+            {"own": "ignore:\n  - skipme_yaml/\n", "absent": "", "empty": "ignore: []\n"}[ignore_list]
         if malformed:
             text = "nesting: [unclosed\n  : :\n"
         (d / ".thailint.yaml").write_text(text)
@@ -394,7 +400,8 @@ def _write_carrier(d, kind, spelling, malformed=False):
             text = "{\"nesting\": "
         (d / ".thailint.json").write_text(text)
     else:
-        text = ("[tool.thailint]\nignore = [\"skipme_pyproject/\"]\n[tool.thailint.nesting]\nmax_nesting_depth = %d\n"
+        ig_line = {"own": "ignore = [\"skipme_pyproject/\"]\n", "absent": "", "empty": "ignore = []\n"}[ignore_list]
+        text = ("[tool.thailint]\n" + ig_line + "[tool.thailint.nesting]\nmax_nesting_depth = %d\n"
                 "[tool.thailint.%s]\nenabled = false\n" % (LIMIT[kind], mn))
         if malformed:
             text = "[tool.thailint\nnesting = = 3\n"
@@ -407,6 +414,8 @@ def h_carriers(ctx):
     present = [k for k in CARRIERS if ctx.flag("has_" + k)]
     spelling = ctx.pick("spelling", ("hyphen", "underscore"))
     bad = ctx.pick("malformed", ("none",) + tuple(present))
+    # the carrier in effect may have no ignore list of its own: the lists of the carriers it shadows stay out of the run
+    first_ignore = ctx.pick("ignore_list_of_the_effective_carrier", ("own", "absent", "empty")) if len(present) >= 2 else "own"
     entry = ctx.pick("entry", ("library", "cli", "cli-nested-targets-no-git"))
     d = Path(tempfile.mkdtemp(prefix="c05car-"))
     cwd0 = os.getcwd()
@@ -420,7 +429,7 @@ def h_carriers(ctx):
             (d / ("skipme_" + k)).mkdir()
             (d / ("skipme_" + k) / "p.py").write_text(triggers.T["printy.py"][3])
         for k in present:
-            _write_carrier(d, k, spelling, malformed=(k == bad))
+            _write_carrier(d, k, spelling, malformed=(k == bad), ignore_list=first_ignore if (present and k == present[0]) else "own")
         eff = present[0] if present else None
         ctx.note("effective_carrier", eff)
         ctx.note("malformed", bad)
@@ -468,7 +477,7 @@ def h_carriers(ctx):
                     carrier=eff, got=len(nest), limit=limit)
         ctx.require("enabled-false-honoured-in-carrier", (len(magic) == 0) == (eff is not None), carrier=eff,
                     spelling=spelling, got=len(magic))
-        want_prints = {"skipme_" + k for k in CARRIERS if k != eff}
+        want_prints = {"skipme_" + k for k in CARRIERS if k != eff or first_ignore != "own"}
         ctx.require("top-level-ignore-list-honoured-in-carrier", prints == want_prints, carrier=eff,
                     got=sorted(prints), want=sorted(want_prints))
     finally:
